@@ -32,6 +32,22 @@ fn units_of(q: &str) -> Vec<&'static str> {
 const QUANTITIES: [&str; 14] = ["angle", "capacitance", "charge", "current", "potential", "conductance", "resistance", "energy",
                                 "inductance", "power", "ratio", "temperature", "time", "frequency"];
 
+/// the first data element of `txt`, or the error code the lexer gives instead
+fn tok_or_code(txt: &[u8]) -> std::result::Result<Token<'_>, i64> {
+    match scpi::parser::tokenizer::Tokenizer::new_params(txt).next() {
+        Some(Ok(t)) if t.is_data() => Ok(t),
+        Some(Err(e)) => Err(scpi::error::Error::from(e).get_code() as i64),
+        _ => Err(-1),
+    }
+}
+/// a row for a literal the lexer itself refuses (a defined suffix must get through it too)
+fn lexfail_row(t: &str, q: &str, w: u32, lit: &str, suf: &str, txt: &str, code: i64) -> Value {
+    let mut o = blank();
+    o["code"] = json!(code);
+    json!({"t": t, "q": q, "w": w, "kind": if suf.is_empty() { "num" } else { "numsuf" }, "lit": bytes_json(lit.as_bytes()),
+           "suf": bytes_json(suf.as_bytes()), "src": txt, "upok": false, "obs": o, "lexfail": true})
+}
+
 fn blank() -> Value {
     json!({"k": "err", "code": 0, "cls": "", "v": dec_json("0"), "num": dec_json("0")})
 }
@@ -97,7 +113,13 @@ macro_rules! unit_rows {
             for sp in cases(suf) {
                 for lit in $lits.iter() {
                     let txt = if sp.is_empty() { lit.to_string() } else { format!("{lit} {sp}") };
-                    let Some(t) = first_token(txt.as_bytes()) else { continue };
+                    let t = match tok_or_code(txt.as_bytes()) {
+                        Ok(t) => t,
+                        Err(code) => {
+                            $out.put(&lexfail_row("unit", $qname, $w, lit, &sp, &txt, code));
+                            continue;
+                        }
+                    };
                     let (kind, _) = kind_of(&t);
                     let r = catch(std::panic::AssertUnwindSafe(|| <$ty>::try_from(t)));
                     let mut o = blank();
@@ -144,7 +166,13 @@ macro_rules! amp_rows {
                 let suf = format!("{base}{tail}");
                 for lit in ["1", "2.5", "-4e3"] {
                     let txt = if suf.is_empty() { lit.to_string() } else { format!("{lit} {suf}") };
-                    let Some(t) = first_token(txt.as_bytes()) else { continue };
+                    let t = match tok_or_code(txt.as_bytes()) {
+                        Ok(t) => t,
+                        Err(code) => {
+                            $out.put(&lexfail_row("amp", $qname, 32, lit, &suf, &txt, code));
+                            continue;
+                        }
+                    };
                     let (kind, _) = kind_of(&t);
                     let conv = |t: Token| -> (Value, bool) {
                         let r = catch(std::panic::AssertUnwindSafe(|| Amplitude::<$ty>::try_from(t)));
@@ -187,7 +215,13 @@ macro_rules! db_rows {
         for suf in sufs {
             for lit in ["1", "-20", "3.5"] {
                 let txt = if suf.is_empty() { lit.to_string() } else { format!("{lit} {suf}") };
-                let Some(t) = first_token(txt.as_bytes()) else { continue };
+                let t = match tok_or_code(txt.as_bytes()) {
+                    Ok(t) => t,
+                    Err(code) => {
+                        $out.put(&lexfail_row("db", $qname, 32, lit, &suf, &txt, code));
+                        continue;
+                    }
+                };
                 let (kind, _) = kind_of(&t);
                 let conv = |t: Token| -> Value {
                     let r = catch(std::panic::AssertUnwindSafe(|| Db::<f32, $ty>::try_from(t)));
